@@ -40,14 +40,15 @@ theorem inlineFlushQ_buf (r : RState) (fq sh : Bool) (w h k : Nat) (b : Buf) (qs
     (hw : r.width = w) (hw1 : 1 ≤ w) (hn1 : 1 ≤ ls.length)
     (hc : b.cc = 0) (hp : b.pw = false) (hin : b.top + max k 1 ≤ b.cr + 1) (hwin : b.cr < b.top + h)
     (hskip : ∀ j l, ls[j]? = some l → canSkip r fq sh ls.length j l = true →
-      rowShows w b (b.cr + 1 - max k 1 + (qrows w qs).length + j) l) :
+      rowShows w b (b.cr + 1 - max k 1 + (qrows w qs).length + j) (Ansi.visible l)) :
     ∀ b', b' = applyBufs w h b ((if k > 1 then [.cuu (k - 1)] else []) ++
       (qs.flatMap (queuedLineOps w) ++ (paintOps r fq sh ls.length 0 ls ++ [.cub w]))) →
     b'.cr + 1 = b.cr + 1 - max k 1 + (qrows w qs).length + ls.length ∧
     b'.top = max b.top (b.cr + 1 - max k 1 + (qrows w qs).length + ls.length - h) ∧
     b'.cc = 0 ∧ b'.pw = false ∧
     (∀ j l, (qrows w qs)[j]? = some l → rowShows w b' (b.cr + 1 - max k 1 + j) l) ∧
-    (∀ j l, ls[j]? = some l → rowShows w b' (b.cr + 1 - max k 1 + (qrows w qs).length + j) l) ∧
+    (∀ j l, ls[j]? = some l →
+      rowShows w b' (b.cr + 1 - max k 1 + (qrows w qs).length + j) (Ansi.visible l)) ∧
     (∀ ρ, ρ < b.cr + 1 - max k 1 → ∀ c, b'.cells ρ c = b.cells ρ c) ∧
     (sh = false → ∀ ρ, b.cr + 1 - max k 1 + (qrows w qs).length + ls.length ≤ ρ →
       ∀ c, b'.cells ρ c = b.cells ρ c) ∧
@@ -110,7 +111,7 @@ theorem inline_flushQ_term (r : RState) (t : Term) (halt : r.altActive = false) 
     (hin : t.main.top + max r.linesRendered 1 ≤ t.main.cr + 1) (hwin : t.main.cr < t.main.top + t.h)
     (hne : (r.buf.isEmpty || r.buf == r.lastRender) = false)
     (hskip : r.queued = [] → ∀ j l, (frameLines r)[j]? = some l → sameAsLast r j l = true →
-      rowShows t.w t.main (viewTop r t + j) l) :
+      rowShows t.w t.main (viewTop r t + j) (Ansi.visible l)) :
     ∀ t', t' = applyOps t (flush r).2 →
     t'.onAlt = false ∧ t'.w = t.w ∧ t'.h = t.h ∧ t'.alt = t.alt ∧
     t'.main.cr + 1 = viewTop r t + (qrows t.w r.queued).length + (frameLines r).length ∧
@@ -119,7 +120,7 @@ theorem inline_flushQ_term (r : RState) (t : Term) (halt : r.altActive = false) 
     t'.main.cc = 0 ∧ t'.main.pw = false ∧
     (∀ j l, (qrows t.w r.queued)[j]? = some l → rowShows t.w t'.main (viewTop r t + j) l) ∧
     (∀ j l, (frameLines r)[j]? = some l →
-      rowShows t.w t'.main (viewTop r t + (qrows t.w r.queued).length + j) l) ∧
+      rowShows t.w t'.main (viewTop r t + (qrows t.w r.queued).length + j) (Ansi.visible l)) ∧
     (∀ ρ, ρ < viewTop r t → ∀ c, t'.main.cells ρ c = t.main.cells ρ c) ∧
     (¬ r.linesRendered > (frameLines r).length →
       ∀ ρ, viewTop r t + (qrows t.w r.queued).length + (frameLines r).length ≤ ρ →
